@@ -57,7 +57,7 @@ func (fv *FnVerifier) lemmaCall(ce *CEnv, text string, st *State) {
 		if n, ok := derefNamed(recv.T); ok {
 			if _, isI := n.Underlying().(*types.Interface); isI {
 				ifaceT = recv.T
-				fc = fv.eng.cs.Funcs["iface#"+n.Obj().Pkg().Name()+"."+n.Obj().Name()+"."+f.Name]
+				fc = fv.ifaceContract(n, f.Name)
 			} else {
 				fc = fv.eng.cs.Funcs[n.Obj().Pkg().Path()+"#"+n.Obj().Name()+"."+f.Name]
 			}
